@@ -39,7 +39,7 @@ CHECKS["C10"] = {
 }
 CHECKS["C11"] = {
     "technique": "symbolic byte-provenance for the owned forms (the result is exactly the bytes of self, moved once) and for const_transmute itself; address/extent/mutability postconditions for the reference forms",
-    "text": "Static analysis of the six flatten/unflatten bodies (N, M, NM symbolic): owned forms are exactly one const_transmute whose source and target sizes are equal as polynomials (flatten) or target <= source with equality iff N | NM (unflatten; the guard inside const_transmute - union read dominated by size_of A == size_of B - is checked too); reference forms are exactly one transmute of the reference itself (same address), equal / in-bounds pointee extents, same mutability, lifetime tied to the receiver. Row-major order follows from contiguity (C01).",
+    "text": "Static analysis of the six flatten/unflatten bodies (N, M, NM symbolic): owned forms are exactly one const_transmute whose source and target sizes are equal as polynomials (flatten) or target <= source with equality iff N | NM (unflatten; the guard inside const_transmute - union read dominated by size_of A == size_of B - is checked too); reference forms are exactly one transmute of the reference itself (same address), equal / in-bounds pointee extents, same mutability, lifetime tied to the receiver. Row-major order follows from contiguity (C01). A reference reinterpretation contains no reachable compiler-inserted check (division by zero, bounds, overflow) and no reachable panic: it returns its view for every shape on which it type-checks, zero-length rows included.",
     "design_ref": "DESIGN.md §3 C11",
     "note": TRUST + " typenum's Prod/Quot semantics are trusted.",
 }
@@ -79,7 +79,7 @@ CHECKS["C06"] = {
 
 CHECKS["C07"] = {
     "technique": "per-path guard facts at every Ok / Err construction and every poll of the source (tree-shaped bodies, helpers expanded) + fill rule on the body with the builder's extend expanded (Zip receiver order, take(N)) + owner liveness",
-    "text": "Static analysis of try_from_iter / try_boxed_from_iter / extend / from_iter: the Ok value is constructed only under the facts `destination full (position == N, resp. vec.len() == N)` AND `the one extra poll returned None`; every early Err is reached only under size_hint lower > N or upper < N (so truthful hints never cause a spurious Err); the source is polled again only when the destination is full (never after it returned None; at most N + 1 polls given the fill shape); the fill is destination.zip(source).for_each(builder closure) with the destination as Zip's receiver over the whole array and the source handed over by &mut, the boxed form goes through take(N) into Vec::with_capacity(N); the builder is a live tracked owner on the unwind path of every foreign call; from_iter = try_* + from_iter_length_fail(N). Holds for every N and every source because the source is an opaque generic iterator in the analysed MIR.",
+    "text": "Static analysis of try_from_iter / try_boxed_from_iter / extend / from_iter: the Ok value is constructed only under the facts `destination full (position == N, resp. vec.len() == N)` AND `the one extra poll returned None`; every early Err is reached only under size_hint lower > N or upper < N (so truthful hints never cause a spurious Err); the source is polled again only when the destination is full (never after it returned None; at most N + 1 polls given the fill shape); the fill is destination.zip(source).for_each(builder closure) with the destination as Zip's receiver over the whole array and the source handed over by &mut, the boxed form goes through take(N) into Vec::with_capacity(N); the builder is a live tracked owner on the unwind path of every foreign call; from_iter = try_* + from_iter_length_fail(N). Holds for every N and every source because the source is an opaque generic iterator in the analysed MIR. The fill counts each stored item in the builder's own position field (the one its Drop reads), so items pulled before a panic of the source are owned.",
     "design_ref": "DESIGN.md §3 C07",
     "note": TRUST + " Zip::next polling order and Take are std semantics; the panic message text is not checked.",
 }
@@ -112,7 +112,7 @@ CHECKS["C15"] = {
 }
 CHECKS["C16"] = {
     "technique": "heap typestate on MIR: non-zero-size and null-check dominance at raw alloc sites, raw-owned window vs foreign calls, into_raw/from_raw provenance and symbolic layout equality; positive fixture keeps zero-instance rules non-vacuous",
-    "text": "Static heap-ownership rules over the alloc-feature code: every raw alloc::alloc::* call site is checked for (Z) size != 0 implied by the dominating facts with size = N*size_of T symbolic, (N) every use of the returned pointer on the non-null edge of a test whose other edge diverges into handle_alloc_error, (U) no foreign-code call between the allocation and the Box::from_raw that gives the block an owner; every Box::from_raw is fed by the Box::into_raw (or alloc) of the same block at offset 0 with equal symbolic size under the dominating facts and the same element type (so the block is released with the layout it was requested with); raw element writes are owner-counted (C04.W). The rules found three defects in Box<GenericArray>::generate (zero-size request for N = 0, missing null check, block leaked on panic), all fixed (known_findings.json); as the repaired tree has no raw alloc site, the same rules are run on a positive fixture on which Z, N and U must fire. What a real allocator does on failure needs execution and is not claimed. C16.E: allocation APIs that report failure as a value (try_reserve*, Box::try_new*, Vec::try_with_capacity, Allocator::allocate ..) occur only where, on every path to a normal return, the request is known to have succeeded - failure diverges through handle_alloc_error (zero sites on the reviewed tree; a positive and a negative fixture keep the rule from passing vacuously).",
+    "text": "Static heap-ownership rules over the alloc-feature code: every raw alloc::alloc::* call site is checked for (Z) size != 0 implied by the dominating facts with size = N*size_of T symbolic, (N) every use of the returned pointer on the non-null edge of a test whose other edge diverges into handle_alloc_error, (U) no foreign-code call between the allocation and the Box::from_raw that gives the block an owner; every Box::from_raw is fed by the Box::into_raw (or alloc) of the same block at offset 0 with equal symbolic size under the dominating facts and the same element type (so the block is released with the layout it was requested with); raw element writes are owner-counted (C04.W). The rules found three defects in Box<GenericArray>::generate (zero-size request for N = 0, missing null check, block leaked on panic), all fixed (known_findings.json); as the repaired tree has no raw alloc site, the same rules are run on a positive fixture on which Z, N and U must fire. What a real allocator does on failure needs execution and is not claimed. C16.E: allocation APIs that report failure as a value (try_reserve*, Box::try_new*, Vec::try_with_capacity, Allocator::allocate ..) occur only where, on every path to a normal return, the request is known to have succeeded - failure diverges through handle_alloc_error (zero sites on the reviewed tree; a positive and a negative fixture keep the rule from passing vacuously). C16.F: every raw dealloc(ptr, layout) releases a block the function took over (Box::into_raw / leak / alloc) with exactly that layout, only where the layout's size is provably non-zero, and once (positive fixture).",
     "design_ref": "DESIGN.md §3 C16",
     "note": TRUST + " Box/Vec allocate, free and report failure correctly; zero-size Boxes never touch the allocator.",
 }
